@@ -203,7 +203,7 @@ func withinWrappers(fn *ssa.Function, allowed []string, depth int) bool {
 		return false
 	}
 	for _, a := range allowed {
-		if a == fn.String() {
+		if a == FStr(fn) {
 			return true
 		}
 	}
@@ -228,7 +228,7 @@ func c8ReleaseFns(c *Ctx) map[string]bool {
 	for _, pd := range discoverPools(c) {
 		for _, cl := range pd.puts {
 			if f := c8ReleaseWrapper(cl); f != nil {
-				out[f.String()] = true
+				out[FStr(f)] = true
 			}
 		}
 	}
@@ -286,8 +286,8 @@ func checkC08(c *Ctx) {
 		}
 		for k, cl := range pd.puts {
 			if f := c8ReleaseWrapper(cl); f != nil {
-				releaseFns[f.String()] = true
-				c.OK("R8.2", pd.name, "Put#"+itoa(k+1), cl.Pos(), "Pool.Put on %s releases %s's own %s: %s is a release function, its %d call site(s) are release points (R8.3)", pd.name, f, Desc(Args(cl)[1]), f.Name(), len(sitesOf(f)))
+				releaseFns[FStr(f)] = true
+				c.OK("R8.2", pd.name, "Put#"+itoa(k+1), cl.Pos(), "Pool.Put on %s releases %s's own %s: %s is a release function, its %d call site(s) are release points (R8.3)", pd.name, f, Desc(Args(cl)[1]), FNm(f), len(sitesOf(f)))
 			} else {
 				c.OK("R8.2", pd.name, "Put#"+itoa(k+1), cl.Pos(), "Pool.Put on %s in %s releases %s where it is held: the call is a release point itself (R8.3)", pd.name, cl.Parent(), Desc(Args(cl)[1]))
 			}
@@ -401,7 +401,7 @@ func releasedObj(cl ssa.CallInstruction) ssa.Value {
 func c8CloseReleaseFns(c *Ctx, m map[string]bool) {
 	for round := 0; round < 3; round++ {
 		c.EachRootFunc(func(f *ssa.Function) {
-			if f.Parent() != nil || m[f.String()] || f.Synthetic != "" {
+			if f.Parent() != nil || m[FStr(f)] || f.Synthetic != "" {
 				return
 			}
 			for _, cl := range Calls(f) {
@@ -418,8 +418,8 @@ func c8CloseReleaseFns(c *Ctx, m map[string]bool) {
 				}
 				for i, q := range f.Params {
 					if q == p {
-						m[f.String()] = true
-						relArgIdx[f.String()] = i
+						m[FStr(f)] = true
+						relArgIdx[FStr(f)] = i
 					}
 				}
 			}
@@ -429,7 +429,7 @@ func c8CloseReleaseFns(c *Ctx, m map[string]bool) {
 
 func relName(cl ssa.CallInstruction) string {
 	if f := CalleeFunc(cl); f != nil {
-		return f.FullName()
+		return CanonFullName(f)
 	}
 	return ""
 }
@@ -478,7 +478,7 @@ func c8UseAfterRelease(c *Ctx, rule string, releaseFns map[string]bool) {
 				var esc []string
 				AllInstrs(fn, func(i ssa.Instruction) {
 					if x, ok := i.(*ssa.Call); ok {
-						if f := CalleeFunc(x); f != nil && f.Name() == "Bytes" && len(Args(x)) == 1 {
+						if f := CalleeFunc(x); f != nil && FNm(f) == "Bytes" && len(Args(x)) == 1 {
 							recv := Strip(Args(x)[0])
 							if u, ok := recv.(*ssa.UnOp); ok {
 								if al, ok := u.X.(*ssa.Alloc); ok {
@@ -618,7 +618,7 @@ func c8UseAfterRelease(c *Ctx, rule string, releaseFns map[string]bool) {
 						v, fld = x, fieldName(fa.X.Type(), fa.Field)
 					}
 				case *ssa.Call:
-					if f := CalleeFunc(x); f != nil && f.Name() == "Bytes" && len(Args(x)) == 1 && Strip(Args(x)[0]) == objS {
+					if f := CalleeFunc(x); f != nil && FNm(f) == "Bytes" && len(Args(x)) == 1 && Strip(Args(x)[0]) == objS {
 						v, fld = x, "Bytes()"
 					}
 				}
@@ -626,7 +626,7 @@ func c8UseAfterRelease(c *Ctx, rule string, releaseFns map[string]bool) {
 					return
 				}
 				if e := escapes(v, objS, 0); e != "" {
-					_, listed := transfer[fn.String()+"|"+fld]
+					_, listed := transfer[FStr(fn)+"|"+fld]
 					// the same hand-over wherever it is written: the buffer outlives putJSONEncoder because that function
 					// clears the encoder's buf field without freeing the buffer (decided by R8.4/put-json-keeps-buf)
 					handOver := strings.HasSuffix(relName(cl), "zapcore.putJSONEncoder") && fld == "buf" && e == "is returned"
@@ -717,7 +717,7 @@ func escapes(v ssa.Value, owner ssa.Value, depth int) string {
 				}
 				for _, q := range calleeParams(x, ai) {
 					if retainsParam(q, 0) {
-						return "is kept by " + q.Parent().String() + " (parameter " + q.Name() + ")"
+						return "is kept by " + FStr(q.Parent()) + " (parameter " + q.Name() + ")"
 					}
 				}
 			}
@@ -735,7 +735,7 @@ func c8SingleRelease(c *Ctx) {
 	je := c.Named(CorePath, "jsonEncoder")
 	put := c.Func(CorePath, "putJSONEncoder")
 	if c.Anchor("R8.4", "zapcore.putJSONEncoder", put != nil && je != nil) {
-		clears[put.String()] = fieldsReset(c, put, put.Params[0], je, nil, false, 0)
+		clears[FStr(put)] = fieldsReset(c, put, put.Params[0], je, nil, false, 0)
 		// does not free buf
 		freesBuf := false
 		for _, cl := range Calls(put) {
@@ -743,7 +743,7 @@ func c8SingleRelease(c *Ctx) {
 				freesBuf = true
 			}
 		}
-		c.Check(!freesBuf && clears[put.String()]["buf"], "R8.4", put.String(), "put-json-keeps-buf", put.Pos(), "putJSONEncoder clears buf without freeing it (its owner is the caller: EncodeEntry returns it, Clone keeps it, writeContext frees it first)")
+		c.Check(!freesBuf && clears[FStr(put)]["buf"], "R8.4", FStr(put), "put-json-keeps-buf", put.Pos(), "putJSONEncoder clears buf without freeing it (its owner is the caller: EncodeEntry returns it, Clone keeps it, writeContext frees it first)")
 	}
 	n := 0
 	c.EachRootFunc(func(fn *ssa.Function) {
@@ -777,7 +777,7 @@ func c8SingleRelease(c *Ctx) {
 						}
 					}
 				case *ssa.Call:
-					if callee := StaticCallee(x); callee != nil && clears[callee.String()][fname] && len(x.Call.Args) > 0 && Desc(x.Call.Args[0]) == Desc(holder) {
+					if callee := StaticCallee(x); callee != nil && clears[FStr(callee)][fname] && len(x.Call.Args) > 0 && Desc(x.Call.Args[0]) == Desc(holder) {
 						return true
 					}
 				}
@@ -794,7 +794,7 @@ func c8SingleRelease(c *Ctx) {
 	w := c.Method(CorePath, "ioCore", "Write")
 	if c.Anchor("R8.4", "zapcore.ioCore.Write", w != nil) {
 		ok, _ := ioCoreWriteShape(c, w)
-		c.Check(ok, "R8.4", w.String(), "encoded-buffer-freed-once-after-write", w.Pos(), "the buffer returned by EncodeEntry is written to c.out whole (buf.Bytes()) and freed exactly once, after the write, on every path that received it")
+		c.Check(ok, "R8.4", FStr(w), "encoded-buffer-freed-once-after-write", w.Pos(), "the buffer returned by EncodeEntry is written to c.out whole (buf.Bytes()) and freed exactly once, after the write, on every path that received it")
 	}
 }
 
@@ -921,11 +921,11 @@ func c8CloneOwnership(c *Ctx, rule string) {
 			},
 		})
 		if trunc || len(seqs) == 0 {
-			c.Und(rule, fn.String(), "clone-owns-its-buffers", fn.Pos(), "path exploration incomplete")
+			c.Und(rule, FStr(fn), "clone-owns-its-buffers", fn.Pos(), "path exploration incomplete")
 			continue
 		}
 		n++
-		c.Check(len(bad) == 0, rule, fn.String(), "clone-owns-its-buffers", fn.Pos(), "the encoder handed out shares none of %v with the encoder it was cloned from: %v", owned, bad)
+		c.Check(len(bad) == 0, rule, FStr(fn), "clone-owns-its-buffers", fn.Pos(), "the encoder handed out shares none of %v with the encoder it was cloned from: %v", owned, bad)
 	}
 	if n == 0 {
 		c.Bad(rule, "zapcore.jsonEncoder", "clone-owns-its-buffers", jn.Obj().Pos(), "no clone function found")
@@ -1066,7 +1066,7 @@ func c8NoRetainedFields(c *Ctx, rule string) {
 				},
 			})
 			n++
-			c.Check(!trunc && len(bad) == 0, rule, fn.String(), "fields-not-retained", fn.Pos(), "on no path is the caller's field slice (or a re-slice of it) stored into memory: %v", uniqSorted(bad))
+			c.Check(!trunc && len(bad) == 0, rule, FStr(fn), "fields-not-retained", fn.Pos(), "on no path is the caller's field slice (or a re-slice of it) stored into memory: %v", uniqSorted(bad))
 		}
 	}
 	if n < 8 {
@@ -1172,7 +1172,7 @@ func c8ObserverHandsOutOwnStorage(c *Ctx, rule string) {
 				bad = append(bad, sq)
 			}
 		}
-		c.Check(!trunc && len(seqs) > 0 && len(bad) == 0, rule, fn.String(), "hands-out-own-storage", fn.Pos(), "on every path the entries returned are a fresh copy, or the store's array after the store gave it up (set to nil or to a fresh slice): %v", bad)
+		c.Check(!trunc && len(seqs) > 0 && len(bad) == 0, rule, FStr(fn), "hands-out-own-storage", fn.Pos(), "on every path the entries returned are a fresh copy, or the store's array after the store gave it up (set to nil or to a fresh slice): %v", bad)
 	})
 	if n < 2 {
 		c.Bad(rule, "observer.ObservedLogs", "count", token.NoPos, "expected at least two methods that hand out entries (All, TakeAll), found %d", n)
